@@ -449,6 +449,87 @@ class Vpd83Step(StepUnit):
         return 4, be(dv, 2, 2) + 4
 
 
+class ResDescriptorsStep(StepUnit):
+    """inner loop of READ ELEMENT STATUS: the element descriptors of one element status page.  Element type, volume
+    tag flags and ELEMENT DESCRIPTOR LENGTH come from the page header the enclosing iteration decoded (arbitrary here)"""
+
+    name = "decode/ReadElementStatus:descriptors:step"
+    bounded_unit = "decode/ReadElementStatus"
+    decoder = ("scsi_cdb_readelementstatus", "ReadElementStatus", "unmarshall_datain")
+    loop = 1
+    acc = "_ed"
+    check_extent = False
+
+    def _page(self, env):
+        r = env.get("_r") if isinstance(env.get("_r"), dict) else {}
+        return r.get("element_type"), r.get("pvoltag"), r.get("avoltag"), env.get("_edl")
+
+    def item(self, view, env):
+        t, pv, av, edl = self._page(env)
+        # the descriptor format is selected by the element type (SMC-3 6.12): decided per path
+        fmt = None
+        for code in (1, 2, 3, 4):
+            if t is not None and bool(V.compare("==", t, code)):
+                fmt = D.RES_DESCRIPTOR[code]
+                break
+        self._known_type = fmt is not None
+        exp = view.decode(fmt if fmt is not None else D.RES_DESCRIPTOR[1])
+        pos = 12
+        if pv is not None and bool(V.compare("!=", pv, 0)):
+            exp["primary_volume_tag"] = view.sub(pos, 36)
+            pos += 36
+        if av is not None and bool(V.compare("!=", av, 0)):
+            exp["alternate_volume_tag"] = view.sub(pos, 36)
+            pos += 36
+        self._content = pos
+        self._edl = edl
+        return exp, edl, edl
+
+    def whole_extra(self, view):
+        # conformance: a defined element type, and an ELEMENT DESCRIPTOR LENGTH that covers the descriptor's content
+        return [self._known_type, V.compare(">=", self._edl_of(), self._content)]
+
+    def _edl_of(self):
+        return self._edl
+
+    def count(self, env):
+        return None
+
+
+class ResPagesStep(StepUnit):
+    """outer loop of READ ELEMENT STATUS: the element status pages; the inner loop is replaced by its contract: it
+    runs over the BYTE COUNT OF DESCRIPTOR DATA AVAILABLE bytes after the 8-byte page header with this page's element
+    type, volume tag flags and ELEMENT DESCRIPTOR LENGTH"""
+
+    name = "decode/ReadElementStatus:pages:step"
+    bounded_unit = "decode/ReadElementStatus"
+    decoder = ("scsi_cdb_readelementstatus", "ReadElementStatus", "unmarshall_datain")
+    loop = 0
+    acc = "_esd"
+
+    def inner_contracts(self):
+        def descriptors(frame, bufname):
+            env = frame.env
+            r = env.get("_r") if isinstance(env.get("_r"), dict) else {}
+            env["_ed"] = InnerList("descriptors", env[bufname], edl=env.get("_edl"), element_type=r.get("element_type"), pvoltag=r.get("pvoltag"), avoltag=r.get("avoltag"))
+            env[bufname] = V.SBytes([], True)
+
+        return {1: descriptors}
+
+    def item(self, view, env):
+        t = view.at(0) & 0x0F
+        pv = (view.at(1) >> 7) & 1
+        av = (view.at(1) >> 6) & 1
+        edl = be(view, 2, 2)
+        bc = be(view, 5, 3)
+        exp = {"element_type": t, "pvoltag": pv, "avoltag": av,
+               "element_descriptors": InnerList("descriptors", view.sub(8, bc), edl=edl, element_type=t, pvoltag=pv, avoltag=av)}
+        return exp, 8 + bc, 8 + bc
+
+    def extent(self, dv, n):
+        return 8, be(dv, 5, 3) + 8
+
+
 class RtpgPortsStep(StepUnit):
     """inner loop of REPORT TARGET PORT GROUPS: the target port descriptors of one group"""
 
@@ -507,4 +588,4 @@ def _RtpgStart(dv):
     return V.ite(ext, 8, 4)
 
 
-UNITS = [register(u) for u in (RtpgPortsStep(), RtpgGroupsStep(), GetLbaStatusStep(), PRInReadKeysStep(), ReportLunsStep(), ReportPriorityStep(), PRInFullStatusStep(), Vpd83Step())]
+UNITS = [register(u) for u in (ResDescriptorsStep(), ResPagesStep(), RtpgPortsStep(), RtpgGroupsStep(), GetLbaStatusStep(), PRInReadKeysStep(), ReportLunsStep(), ReportPriorityStep(), PRInFullStatusStep(), Vpd83Step())]
